@@ -279,11 +279,18 @@ def run_check(prop: str, module, tier: str, seed: int, src: Sources | None = Non
     t0 = time.time()
     ctx = Ctx(prop, tier, seed, src)
     meta = module.META
+    incomplete = None
     try:
         module.run(ctx)
     except AnalysisError as e:
-        print(f"ANALYSIS-ERROR property={prop} {e}")
-        return 2
+        # Obligations already refuted stay refuted: a violation found before the analysis got stuck is reported
+        # (exit 1).  Without any, the run is an analysis error (exit 2), never a verdict.
+        known0 = known_keys_for(prop)
+        if not any(f.key not in known0 for f in ctx.findings):
+            print(f"ANALYSIS-ERROR property={prop} {e}")
+            return 2
+        incomplete = str(e)
+        print(f"  note: analysis incomplete after the violations below were found: {incomplete}")
     except Exception as e:  # a crash of the analyser is not a violation
         import traceback
 
